@@ -47,6 +47,8 @@ type SSOCase struct {
 	Prelude []string `json:"prelude_hosts,omitempty"`
 	// Noise: unrelated actors (another SP, user, tenant) use the same provider instance first, see withNoise.
 	Noise bool `json:"noise,omitempty"`
+	// Hist: the sending service provider used the IdP under an earlier registration, or was deregistered after using it.
+	Hist *History `json:"history,omitempty"`
 }
 
 func (c SSOCase) hasDefect(name string) bool {
